@@ -209,6 +209,9 @@ func runC05(env *lib.Env, rep *lib.Report) {
 	lib.SilenceStderr()
 	defer lib.RestoreStderr()
 	maxRows := 3
+	if env.Thorough() {
+		maxRows = 4
+	}
 	contents := c05Contents(maxRows)
 	qs := buildC05Queries(env.Thorough())
 	rep.Bounds["table contents"] = fmt.Sprintf("%d: every multiset of <= %d rows over a in {1,2}, b in {1,2^40}, c in {x,y}, d in {true,false}, the empty table, two fixed 6-row tables with ties, one 7-row table with negative/extreme numbers and strings of different length and case", len(contents), maxRows)
